@@ -88,8 +88,11 @@ def get_use_tree(
                     use_dict[use_stmnt.mod_name] = use_dict_mod
             else:
                 use_dict[use_stmnt.mod_name] = Use(use_stmnt.mod_name)
+            # The module was reached through an ONLY list before and is now used
+            # in full: the modules it uses have to be walked again without the list
+            widened = (old_len > 0) and (not merged_use_list)
             # Skip if we have already visited module with the same only list
-            if old_len == len(use_dict_mod.only_list):
+            if (old_len == len(use_dict_mod.only_list)) and (not widened):
                 continue
         else:
             if type(use_stmnt) is Use:
